@@ -117,6 +117,10 @@ type c17Spec struct {
 	MarkM     bool     `json:"master_marked_and_offline"`
 	MOff      bool     `json:"master_offline_unmarked"`
 	CustomLag bool     `json:"custom_lag_query"`
+	// Restart >= 0: that replica has no daemon of its own, starts offline with a small lag and a status written when the
+	// scenario starts (fresh, negative: it is brought online); 25 s later its mysqld restarts (offline again, status now
+	// older than the server): it must stay offline
+	Restart int `json:"replica_restarting_without_a_daemon"`
 }
 
 var c17Hosts = []string{"vla-m", "vla-a", "vla-b", "vla-c", "sas-a", "sas-b", "myt-a"}
@@ -136,6 +140,11 @@ func c17Gen(seed int64, idx int) c17Spec {
 		rp := c17Rep{Lag: lags[r.Intn(len(lags))], Offline: r.Intn(3) == 0, Broken: []string{"ok", "ok", "ok", "stopped", "permanent"}[r.Intn(5)], Stale: r.Intn(6) == 0, Resetup: r.Intn(8) == 0}
 		sp.Reps = append(sp.Reps, rp)
 	}
+	sp.Restart = -1
+	if idx%3 == 0 {
+		sp.Restart = r.Intn(len(sp.Reps))
+		sp.Reps[sp.Restart] = c17Rep{Lag: fp(5), Offline: true, Broken: "ok"}
+	}
 	return sp
 }
 
@@ -145,7 +154,7 @@ func c17Sim(u *Unit) {
 	master := hosts[0]
 	noDaemon := map[string]bool{}
 	for i, rp := range sp.Reps {
-		if rp.Stale || rp.Resetup {
+		if rp.Stale || rp.Resetup || i == sp.Restart {
 			noDaemon[hosts[i+1]] = true // its resetup status is whatever the scenario writes
 		}
 	}
@@ -198,6 +207,13 @@ func c17Sim(u *Unit) {
 				b, _ := json.Marshal(map[string]any{"UpdateTime": t, "Status": rp.Resetup})
 				s.ZK.Put("setup", NS+"/resetup_status/"+h, string(b))
 			}
+		}
+		statusAt := map[string]time.Time{} // statuses written by the scenario for hosts without a daemon
+		if sp.Restart >= 0 {
+			h := hosts[sp.Restart+1]
+			b, _ := json.Marshal(map[string]any{"UpdateTime": now, "Status": false})
+			s.ZK.Put("setup", NS+"/resetup_status/"+h, string(b))
+			statusAt[h] = now
 		}
 		if sp.MarkM {
 			s.ZK.Put("operator", NS+"/recovery/"+master, "null")
@@ -340,6 +356,10 @@ func c17Sim(u *Unit) {
 					}
 				}
 				_ = rs
+				if t, ok := statusAt[h]; ok && t.Before(x.Started.Truncate(time.Second)) {
+					why = append(why, fmt.Sprintf("its resetup status (written %s) is older than the start of its mysqld (%s) and nothing has refreshed it", t.Format("15:04:05"), x.Started.Format("15:04:05")))
+					sc.Cover("restart-without-fresh-status-judged")
+				}
 				if len(why) > 0 {
 					sc.Violate("C17", "offline-off-without-reason:"+strings.Fields(why[0])[0], fmt.Sprintf("replica set online although %v; %s", why, at))
 				}
@@ -348,7 +368,20 @@ func c17Sim(u *Unit) {
 		})
 		w.Unlock()
 		s.Start()
-		time.Sleep(3*c17Interval + 40*time.Second)
+		if sp.Restart >= 0 {
+			time.Sleep(25 * time.Second)
+			h := hosts[sp.Restart+1]
+			if x := s.W.Snapshot()[h]; x != nil && !x.Offline {
+				sc.Cover("restarting-replica-was-online-before")
+			}
+			s.W.Crash(h)
+			time.Sleep(2 * time.Second)
+			s.W.Restart(h)
+			s.W.Manual(h, "lag after restart", func(x *world.Server) { x.Lag = fp(5) })
+			time.Sleep(3*c17Interval + 13*time.Second)
+		} else {
+			time.Sleep(3*c17Interval + 40*time.Second)
+		}
 		// between the thresholds nothing changes; those above with cap room go offline, those below come online (bounded)
 		w.Lock()
 		for i, rp := range sp.Reps {
